@@ -80,13 +80,23 @@ pub fn gzip_wrap(r: &mut Rng, stream: &[u8], plain: &[u8], subset: u8, hostile_f
         v.extend_from_slice(&(f.len() as u16).to_le_bytes());
         v.extend_from_slice(&f);
     }
+    // the two zero-terminated strings have no length limit in RFC 1952: mostly short, sometimes a few KiB,
+    // rarely more than 64 KiB
+    let strlen = |r: &mut Rng, short: usize| -> usize {
+        match r.below(16) {
+            0 => 1000 + r.usize_below(200),
+            1 => 1024 + r.usize_below(8000),
+            2 if r.chance(1, 3) => 65536 + r.usize_below(5000),
+            _ => r.usize_below(short),
+        }
+    };
     if subset & 2 != 0 {
-        let n = r.usize_below(40);
+        let n = strlen(r, 40);
         v.extend_from_slice(&field(r, n, true));
         v.push(0);
     }
     if subset & 4 != 0 {
-        let n = r.usize_below(80);
+        let n = strlen(r, 80);
         v.extend_from_slice(&field(r, n, true));
         v.push(0);
     }
@@ -502,7 +512,7 @@ pub fn assemble(r: &mut Rng, max_plain: usize, max_streams: usize) -> GenFile {
 }
 
 /// the shapes the C01 statement names explicitly (and a few neighbours)
-pub const N_EDGE: u64 = 15;
+pub const N_EDGE: u64 = 16;
 
 pub fn edge_case(idx: u64, r: &mut Rng) -> GenFile {
     let n = 1100 + r.usize_below(3000);
@@ -643,6 +653,33 @@ pub fn edge_case(idx: u64, r: &mut Rng) -> GenFile {
             let k = r.usize_below(40);
             v.extend(r.bytes(k));
             ("png: IDAT length field overlapping the end of the previous stream", v)
+        }
+        14 => {
+            // a PNG that ends inside one of the fields of an IDAT chunk: length, type, first/last data byte, and
+            // each of the four CRC bytes, of the first or the last chunk of the run
+            let nch = 1 + r.usize_below(3);
+            let cuts = random_cuts(r, z.len(), nch, false);
+            let v = png_wrap(r, &z, &cuts, true, &[]);
+            // chunk starts: 33 (signature + IHDR) then 12 + payload each
+            let mut bounds = vec![0usize];
+            bounds.extend(cuts.iter().cloned());
+            bounds.push(z.len());
+            let mut starts = vec![];
+            let mut at = 33usize;
+            for wnd in bounds.windows(2) {
+                starts.push((at, wnd[1] - wnd[0]));
+                at += 12 + (wnd[1] - wnd[0]);
+            }
+            let (cs, cl) = if r.chance(1, 2) { starts[0] } else { *starts.last().unwrap() };
+            let within = *r.pick(&[1usize, 3, 4, 5, 7, 8, 9]);
+            let rel = match r.below(3) {
+                0 => within.min(8 + cl),
+                1 => 8 + cl - r.usize_below(2).min(cl),
+                _ => 8 + cl + 1 + r.usize_below(4), // 1..4 bytes into the CRC (4 = complete chunk)
+            };
+            let mut f = v;
+            f.truncate((cs + rel).min(f.len()));
+            ("png: file ends inside a field of an IDAT chunk", f)
         }
         _ => {
             // file consisting only of signature bytes
